@@ -6,6 +6,7 @@ package argmapper
 import (
 	"fmt"
 	"reflect"
+	"strconv"
 	"strings"
 	"sync"
 
@@ -212,6 +213,7 @@ func (f *Func) redefineInputs(opts ...Arg) (reflect.Type, error) {
 		Type:      structMarkerType,
 		Anonymous: true,
 	})
+	names := map[string]struct{}{}
 	for k, v := range state.InputSet {
 		log.Trace("input", "value", v)
 		if _, ok := inputsProvided[k]; ok {
@@ -222,17 +224,18 @@ func (f *Func) redefineInputs(opts ...Arg) (reflect.Type, error) {
 		case *valueVertex:
 			// Two required values can share a name (different types or
 			// subtypes). The struct we build can't represent that.
-			fieldName := strings.ToUpper(v.Name)
-			for _, existing := range sf {
-				if existing.Name == fieldName {
-					return nil, fmt.Errorf(
-						"redefined function would require multiple inputs named %q", v.Name)
-				}
+			if _, ok := names[v.Name]; ok {
+				return nil, fmt.Errorf(
+					"redefined function would require multiple inputs named %q", v.Name)
 			}
+			names[v.Name] = struct{}{}
 
+			// The field name is synthetic and the value's name goes into
+			// the tag: a name doesn't have to be a valid Go identifier.
 			sf = append(sf, reflect.StructField{
-				Name: strings.ToUpper(v.Name),
+				Name: fmt.Sprintf("V__Name_%d", len(sf)),
 				Type: v.Type,
+				Tag:  reflect.StructTag("argmapper:" + strconv.Quote(v.Name)),
 			})
 
 		case *typedArgVertex:
